@@ -301,3 +301,58 @@ func (g *G) genMixedTx() *world.TxStep {
 	}
 	return ts
 }
+
+// genChain draws a multi-message transaction whose messages depend on one another: each is
+// generated against models that already contain the documented effect of the previous ones.
+// With poison=true a final message is appended that cannot succeed in that speculative
+// state, so that the node has to discard the whole branch.
+func (g *G) genChain(gen func() (sdk.Msg, string), n int, poison bool) ([]sdk.Msg, string) {
+	restore := g.W.SwapModels()
+	defer restore()
+	var msgs []sdk.Msg
+	note := "chain:"
+	for i := 0; i < n; i++ {
+		var m sdk.Msg
+		var nt string
+		// prefer messages that succeed in the speculative state
+		for try := 0; try < 4; try++ {
+			m, nt = gen()
+			probe := g.W.SwapModels()
+			ok := g.W.Speculate(m)
+			probe()
+			if ok {
+				break
+			}
+		}
+		msgs = append(msgs, m)
+		note += nt + ";"
+		g.W.Speculate(m)
+	}
+	if poison {
+		for try := 0; try < 6; try++ {
+			m, nt := gen()
+			probe := g.W.SwapModels()
+			ok := g.W.Speculate(m)
+			probe()
+			if !ok {
+				msgs = append(msgs, m)
+				note += "POISON " + nt + ";"
+				break
+			}
+		}
+	}
+	return msgs, note
+}
+
+// genPerturb draws a Simulate / CheckTx call on the primary instance with a (coherent)
+// transaction of the given module generator.
+func (g *G) genPerturb(gen func() (sdk.Msg, string), amino bool) *world.Step {
+	msgs, note := g.genChain(gen, 1+g.intn("sim-n", 3), g.chance("sim-poison", 30))
+	ts := g.wrapTx(msgs, "perturb "+note, amino)
+	ts.Exec = 0
+	kind := "simulate"
+	if g.chance("checktx", 40) {
+		kind = "checktx"
+	}
+	return &world.Step{Kind: kind, Tx: ts}
+}
